@@ -3,6 +3,7 @@
 package main
 
 import (
+	"math/big"
 	"fmt"
 	"os"
 	"path/filepath"
@@ -154,6 +155,10 @@ func (e *storeEngine) buildBlock(txNames []string, counter string) *ledger.Block
 	e.ldg.PrepareBlock(nil, h)
 	e.ldg.SetState(lAddr("a0"), []byte("height"), []byte(fmt.Sprint(h)), nil)
 	e.ldg.SetState(lAddr("a0"), []byte(fmt.Sprintf("k%d", h)), []byte(strings.Join(txNames, ",")), nil)
+	if h == 1 || h%3 == 0 {
+		// most blocks change only the storage of an account that has a balance; block 1 and every third block change the balance too
+		e.ldg.SetBalance(lAddr("a0"), big.NewInt(int64(1000+h)))
+	}
 	e.ldg.Finalise(true)
 	accounts, root := e.ldg.FlushDirtyData()
 	var txs []pb.Transaction
@@ -399,6 +404,7 @@ func (e *storeEngine) crashw(o map[string]string) string {
 	if ok, v := e.ldg.GetState(lAddr("a0"), []byte("height")); ok {
 		sk = string(v)
 	}
+	sk += "/" + e.ldg.GetBalance(lAddr("a0")).String()
 	return fmt.Sprintf("h=%d opened chain=%d state=%d blockfile=%d head=%s statekey=%s", h, m.Height, e.ldg.Version(), blocks, head, sk)
 }
 
@@ -486,5 +492,6 @@ func (e *storeEngine) crash(o map[string]string) string {
 	if ok, v := e.ldg.GetState(lAddr("a0"), []byte("height")); ok {
 		sk = string(v)
 	}
+	sk += "/" + e.ldg.GetBalance(lAddr("a0")).String()
 	return fmt.Sprintf("h=%d opened chain=%d state=%d blockfile=%d head=%s statekey=%s", h, m.Height, e.ldg.Version(), blocks, head, sk)
 }
